@@ -340,6 +340,33 @@ fn stratified(t: Tier) -> Vec<Case> {
       }
     }
   }
+  // identity / absorbing elements, enumerated: for every numeric kind and arithmetic operator, every form pair, the operand patterns
+  // (all 0 | all 1 | all 2) x ([0 1 2 …] | [2 1 0 …]) — the inputs on which a value-dependent shortcut (x ^ 0, 0 ^ x, x * 0, x / 1, x % 1)
+  // differs from the elementwise definition. Random pools put 0 into both operands of one case only a few times per run.
+  let special = |ek: EK, v: i64| -> Option<Sc> {
+    match ek {
+      EK::N(k) if k.is_int() => Some(k.int_sc(&BigInt::from(v))),
+      EK::N(K::F64) => Some(f64b(v as f64)), EK::N(K::F32) => Some(f32b(v as f32)), EK::N(K::R64) => Some(Sc::R(v, 1)), EK::N(_) => Some(Sc::C((v as f64).to_bits(), 0f64.to_bits())),
+      _ => None,
+    }
+  };
+  for ek in all_ek() {
+    if special(ek, 0).is_none() { continue; }
+    for op in ARITH {
+      for (l, r) in forms.iter() {
+        for lv in [0i64, 1, 2] {
+          for rev in [false, true] {
+            let n = r.1 * r.2;
+            let lhs = Opnd { scalar: l.0, rows: l.1, cols: l.2, data: (0..l.1 * l.2).map(|_| special(ek, lv).unwrap()).collect() };
+            let rhs = Opnd { scalar: r.0, rows: r.1, cols: r.2, data: (0..n).map(|i| special(ek, (if rev { n - 1 - i } else { i } % 3) as i64).unwrap()).collect() };
+            out.push(Case { op, class: if l.0 && r.0 { Class::Scalar } else { Class::Compat }, lhs: lhs.clone(), rhs: Some(rhs.clone()) });
+            // and mirrored: the pattern on the left, the constant on the right
+            if l != r { out.push(Case { op, class: Class::Compat, lhs: Opnd { scalar: r.0, rows: r.1, cols: r.2, data: rhs.data.clone() }, rhs: Some(Opnd { scalar: l.0, rows: l.1, cols: l.2, data: lhs.data.clone() }) }); }
+          }
+        }
+      }
+    }
+  }
   out
 }
 
